@@ -1,5 +1,6 @@
 import IbModel.Model.Io
 import IbModel.Proofs.Io
+import IbModel.Proofs.Io2
 /-!
 # C09 — file I/O round-trips; sharded, streamed and parallel paths equal the plain ones
 
@@ -232,8 +233,10 @@ theorem legacy_parWriteJsonl_panics_iff {α : Type} (data : List α) (shards : O
 example : (shardCount (some 4) 16 6 - 1) * divCeil 6 (shardCount (some 4) 16 6) ≤ 6 ∧
     ¬ (shardCount (some 4) 16 5 - 1) * divCeil 5 (shardCount (some 4) 16 5) ≤ 5 := by decide
 
-/-- `VecOpsImpl::split` + concatenation is the identity for every partition count
-    (`PCollection::write_csv_par` = `collect_par(shards)` + `write_csv_vec`). -/
+/-- `VecOpsImpl::split` + concatenation (`exec_par` on an in-memory source) is the identity for every
+    partition count. Used by `pcWriteCsvPar_eq_seq`: `PCollection::write_csv_par` =
+    `collect_par(threads := shards, partitions := the planner's suggestion)` + `write_csv_vec` — its `shards`
+    argument is the rayon THREAD count, not a partition count. -/
 theorem collectParVec_eq (data : List α) (partitions : Nat) :
     collectParVec data partitions = data := by
   unfold collectParVec vecSplit
@@ -361,9 +364,9 @@ theorem parwrite_roundtrip (ser : Rec → List Char) (de : List Char → Option 
     roundtrip_modulo_serialiser ser de h rs, ?_⟩
   exact streamed_roundtrip ser de h rs per
 
-/-- non-vacuity: a concrete codec (decimal digits of a `Nat`, parsed back) with a witness of the
-    four hypotheses on the values it is used with is exercised by the driver (`JSONLRD`); here the
-    smallest instance: records are single non-blank characters. -/
+/-- non-vacuity, smallest instance: records are single non-blank characters. The codec the driver really
+    runs (`serI64` / `deI64`, requests `JSONLRD` and `WRJSONL`) is proved to be a `LineCodec` in §9
+    (`intCodec`). -/
 example : LineCodec (fun (c : Bool) => if c then ['1'] else ['0'])
     (fun l => if l = ['1'] then some true else if l = ['0'] then some false else none) := by
   constructor <;> intro r <;> cases r <;> decide
@@ -427,5 +430,380 @@ theorem globRead_deterministic {Line Rec : Type} (readFile : List Line → Optio
 example : pathLe [[97], [120]] [[97, 45, 98], [120]] = true ∧
     pathLe [[97, 45, 98], [120]] [[97, 46, 106]] = true ∧
     pathLe [[97, 46, 106]] [[97], [120]] = false := by decide
+
+/-! ## 6. Parquet: our batch / row-group arithmetic, with the failure outcomes
+
+Assumed law of serde_arrow (hypothesis `RowWise`): `from_record_batch` decodes a batch row by row.
+Everything else — the batch loops, the group ranges, the `.ok()?` plumbing, the runner — is proved. -/
+
+section parquetIO
+variable {Row Rec : Type}
+
+/-- serde_arrow's `from_record_batch` decodes a batch row by row (first bad row → `Err`) -/
+def RowWise (dec : List Row → Option (List Rec)) (decRow : Row → Option Rec) : Prop :=
+  ∀ batch, dec batch = readAll (fun _ => false) decRow batch
+
+/-- The `while let Some(batch) … out.append(&mut rows)` loops (`read_parquet_vec`,
+    `read_parquet_row_group_range`): however the reader cuts the rows into batches — ANY list of batches, so
+    any batch size and batches that do or do not span row groups — the appended result is the row-wise
+    decoding of all rows in order; one undecodable row anywhere → `Err`. -/
+theorem pq_batch_partition_irrelevant (dec : List Row → Option (List Rec)) (decRow : Row → Option Rec)
+    (h : RowWise dec decRow) (bs : List (List Row)) :
+    readBatches dec bs = readAll (fun _ => false) decRow bs.flatten :=
+  readBatches_flatten dec decRow h bs
+
+/-- … in particular for the two batch sizes the code uses (1024, 65 536) and every other one (0 is
+    treated as 1): a shard read returns the rows of its row groups. -/
+theorem pq_batch_size_irrelevant (dec : List Row → Option (List Rec)) (decRow : Row → Option Rec)
+    (h : RowWise dec decRow) (b : Nat) (groups : List (List Row)) (s e : Nat) :
+    pqReadRange true b dec groups s e = readAll (fun _ => false) decRow (groupRows groups s e) := by
+  unfold pqReadRange
+  rw [if_pos rfl, pq_batch_partition_irrelevant dec decRow h, pqBatches_flatten]
+
+/-- Streamed = whole for Parquet, failures included: the concatenated `split` partitions and the
+    `clone_any` view both equal `read_parquet_vec`, for every number of row groups, every
+    `groups_per_shard` (incl. 0) and every pair of batch sizes. -/
+theorem pq_streamed_eq_whole (dec : List Row → Option (List Rec)) (decRow : Row → Option Rec)
+    (h : RowWise dec decRow) (b b' : Nat) (groups : List (List Row)) (per : Nat) :
+    (pqSplit true b dec groups per).map List.flatten = pqReadAll true b' dec groups ∧
+    pqSeq true b dec groups per = pqReadAll true b' dec groups := by
+  have hc := mkGroupRanges_chain groups.length per
+  have hall : pqReadAll true b' dec groups = decRows decRow groups.flatten := by
+    unfold pqReadAll decRows
+    rw [if_pos rfl, pq_batch_partition_irrelevant dec decRow h, pqBatches_flatten]
+  constructor
+  · unfold pqSplit
+    have : (fun r : Nat × Nat => pqReadRange true b dec groups r.1 r.2) =
+        fun r => decRows decRow (groupRows groups r.1 r.2) := by
+      funext r; exact pq_batch_size_irrelevant dec decRow h b groups r.1 r.2
+    rw [this, decRows_chain decRow groups hc.1, groupRows_all, hall]
+  · unfold pqSeq
+    rw [pq_batch_size_irrelevant dec decRow h, hall]
+    by_cases hne : mkGroupRanges groups.length per = []
+    · have h0 : groups.length = 0 := by
+        have := hc.1; rw [hne] at this; exact this.nil_inv.symm
+      have : groups = [] := List.eq_nil_of_length_eq_zero h0
+      subst this
+      simp [groupRows, decRows]
+    · rw [hc.1.getLast hne]
+      simp only [Option.getD_some, groupRows_all]
+      rfl
+
+/-- `collect_par` on a Parquet source returns what `collect_seq` returns; when a shard cannot be decoded the
+    sequential run returns `Err` and the parallel run panics (`expect("cloneable source")`) — never a
+    silently different result. (File readable at read time; see `pq_vanished_file` otherwise.) -/
+theorem pq_runPar_eq_runSeq (dec : List Row → Option (List Rec)) (decRow : Row → Option Rec)
+    (h : RowWise dec decRow) (b : Nat) (groups : List (List Row)) (per : Nat) :
+    runParP true b dec groups per =
+      match runSeqP true b dec groups per with
+      | .ok v => .ok v
+      | .err => .panic
+      | .panic => .panic := by
+  obtain ⟨h1, h2⟩ := pq_streamed_eq_whole dec decRow h b b groups per
+  unfold runParP runSeqP
+  rw [h2]
+  cases hs : pqSplit true b dec groups per with
+  | none => rw [hs] at h1; simp only [Option.map_none] at h1; rw [← h1]
+  | some parts => rw [hs] at h1; simp only [Option.map_some] at h1; rw [← h1]
+
+/-- A file that can no longer be opened when the shards are read (it was there when they were built):
+    with at least one row group the sequential run returns `Err` and the parallel run panics; with NO row
+    group the parallel run reads nothing and returns `[]` while the sequential one still opens the file. -/
+theorem pq_vanished_file (dec : List Row → Option (List Rec)) (b : Nat) (groups : List (List Row))
+    (per : Nat) :
+    runSeqP false b dec groups per = .err ∧
+    runParP false b dec groups per = (if groups = [] then .ok [] else .panic) := by
+  constructor
+  · simp [runSeqP, pqSeq, pqReadRange]
+  · unfold runParP pqSplit
+    cases groups with
+    | nil => simp [mkGroupRanges]
+    | cons g gs =>
+      have hc := (mkGroupRanges_chain (g :: gs).length per).1
+      cases hr : mkGroupRanges (g :: gs).length per with
+      | nil => rw [hr] at hc; have := hc.nil_inv; simp at this
+      | cons r rs => simp [pqReadRange, pqSeq]
+
+/-- Parquet round trip: what `write_parquet_vec` writes (row groups of any maximal size), `read_parquet_vec`
+    reads back unchanged and in order with any batch size, and so does the streaming source with any
+    `groups_per_shard` in both execution modes — given that a row survives the arrow/parquet encoding. -/
+theorem parquet_roundtrip (enc : Rec → Row) (dec : List Row → Option (List Rec))
+    (decRow : Row → Option Rec) (h : RowWise dec decRow) (hrt : ∀ r, decRow (enc r) = some r)
+    (maxRG b per : Nat) (data : List Rec) :
+    pqReadAll true b dec (pqWrite maxRG enc data) = some data ∧
+    runSeqP true b dec (pqWrite maxRG enc data) per = .ok data ∧
+    runParP true b dec (pqWrite maxRG enc data) per = .ok data := by
+  have hall : pqReadAll true b dec (pqWrite maxRG enc data) = some data := by
+    unfold pqReadAll pqWrite
+    rw [if_pos rfl, pq_batch_partition_irrelevant dec decRow h, pqBatches_flatten, pqGroups_flatten]
+    exact readAll_map_ser (fun _ => false) decRow enc hrt (fun _ => rfl) data
+  obtain ⟨_, h2⟩ := pq_streamed_eq_whole dec decRow h b b (pqWrite maxRG enc data) per
+  have hs : runSeqP true b dec (pqWrite maxRG enc data) per = .ok data := by
+    unfold runSeqP; rw [h2, hall]
+  exact ⟨hall, hs, by rw [pq_runPar_eq_runSeq dec decRow h, hs]⟩
+
+/-- non-vacuity: identity encoding, row-wise decoder that rejects the row `0` -/
+example : RowWise (Row := Nat) (Rec := Nat) (readAll (fun _ => false) fun r => if r = 0 then none else some r)
+    (fun r => if r = 0 then none else some r) := fun _ => rfl
+
+/-- witness: a non-decodable row in the second of three groups, `groups_per_shard = 1`, batch size 2 —
+    sequential `Err`, parallel panic, whole read `Err` -/
+example :
+    let dec : List Nat → Option (List Nat) := readAll (fun _ => false) fun r => if r = 0 then none else some r
+    runSeqP true 2 dec [[1, 2, 3], [4, 0], [6]] 1 = .err ∧ runParP true 2 dec [[1, 2, 3], [4, 0], [6]] 1 = .panic ∧
+    pqReadAll true 2 dec [[1, 2, 3], [4, 0], [6]] = none ∧
+    runParP true 2 dec [[1, 2, 3], [4, 5], [6]] 2 = .ok [1, 2, 3, 4, 5, 6] := by decide
+
+end parquetIO
+
+/-! ## 7. The directory around the writers: prior content is irrelevant -/
+
+section parfs
+variable {α : Type}
+
+/-- `write_jsonl_par` in a directory with ARBITRARY prior content (stale `*.part{i}` files of an interrupted
+    earlier run at any index, an older and longer target, anything else): it does not fail, the target holds
+    exactly the bytes `write_jsonl_vec` would write, every part file it used is gone, and no other path is
+    touched. Hypotheses on the naming only: a part path is never the target and distinct indices give distinct
+    part paths (true of `path.with_extension("jsonl.part{i}")` for every path with a file name). -/
+theorem parWriteJsonlFs_prior_content_irrelevant (ser : α → List Char) (part : Nat → String)
+    (path : String) (hpart : ∀ i, part i ≠ path) (hinj : ∀ i j, part i = part j → i = j)
+    (data : List α) (shards : Option Nat) (auto : Nat) (fs : Fs) :
+    ∃ fs', parWriteJsonlFs ser part path data shards auto fs = some fs' ∧
+      fs' path = some (writeJsonl ser data) ∧
+      (∀ i, i < jsonlPartCount data.length shards auto → fs' (part i) = none) ∧
+      (∀ q, q ≠ path → (∀ i, i < jsonlPartCount data.length shards auto → q ≠ part i) → fs' q = fs q) := by
+  unfold parWriteJsonlFs jsonlPartCount
+  simp only
+  split
+  · next h0 =>
+    have : data = [] := List.eq_nil_of_length_eq_zero h0
+    subst this
+    refine ⟨_, rfl, by simp [fsCreate, writeJsonl], fun i hi => absurd hi (Nat.not_lt_zero _), ?_⟩
+    intro q hq _
+    simp [fsCreate, hq]
+  · next h0 =>
+    have hsc := shardCount_pos shards auto data.length (by omega)
+    -- the slices exist and concatenate to the data
+    have hcat := parWriteJsonl_concat data shards auto
+    unfold parWriteJsonl parWriteWith at hcat
+    simp only [if_neg h0] at hcat
+    cases hp : (jsonlShardBounds data.length (shardCount shards auto data.length)).mapM
+        (fun b => slice? data b.2.1 b.2.2) with
+    | none => rw [hp] at hcat; simp at hcat
+    | some parts =>
+      rw [hp] at hcat
+      simp only [Option.map_some, Option.some.injEq] at hcat
+      have hidx := jsonlShardBounds_idx data.length (shardCount shards auto data.length)
+      obtain ⟨fs1, hw, hc, hu⟩ := writeParts_spec ser part hinj data _ fs parts
+        (by rw [hidx]; exact List.nodup_range) hp
+      rw [hidx] at hc
+      rw [hw]
+      simp only
+      have hc2 : concatParts part (fsCreate fs1 path []) (List.range (shardCount shards auto data.length)) =
+          some ((parts.map (writeJsonl ser)).flatten) := by
+        rw [concatParts_congr part fs1 _ _ (fun i _ => by simp [fsCreate, hpart i]), hc]
+      rw [hc2]
+      refine ⟨_, rfl, ?_, ?_, ?_⟩
+      · rw [removeParts_spec, if_neg]
+        · simp only [fsCreate, if_true]
+          rw [← writeJsonl_flatten, hcat]
+        · rintro ⟨i, _, hi⟩; exact hpart i hi.symm
+      · intro i hi
+        rw [removeParts_spec, if_pos ⟨i, List.mem_range.mpr hi, rfl⟩]
+      · intro q hq hparts
+        rw [removeParts_spec, if_neg]
+        · simp only [fsCreate, if_neg hq]
+          apply hu
+          intro b hb
+          have : b.1 ∈ List.range (shardCount shards auto data.length) := by
+            rw [← hidx]; exact List.mem_map_of_mem hb
+          exact hparts b.1 (List.mem_range.mp this)
+        · rintro ⟨i, hi, hqi⟩; exact hparts i (List.mem_range.mp hi) hqi
+
+/-- … so two directories that differ in any way yield the same target file. -/
+theorem parWriteJsonlFs_same_target (ser : α → List Char) (part : Nat → String)
+    (path : String) (hpart : ∀ i, part i ≠ path) (hinj : ∀ i j, part i = part j → i = j)
+    (data : List α) (shards : Option Nat) (auto : Nat) (fs fs' : Fs) :
+    (parWriteJsonlFs ser part path data shards auto fs).bind (· path) =
+      (parWriteJsonlFs ser part path data shards auto fs').bind (· path) ∧
+    (parWriteJsonlFs ser part path data shards auto fs).bind (· path) =
+      writeFileFs fs path (writeJsonl ser data) path := by
+  obtain ⟨a, ha, hpa, _⟩ := parWriteJsonlFs_prior_content_irrelevant ser part path hpart hinj data shards auto fs
+  obtain ⟨b, hb, hpb, _⟩ := parWriteJsonlFs_prior_content_irrelevant ser part path hpart hinj data shards auto fs'
+  rw [ha, hb]
+  simp [hpa, hpb, writeFileFs, fsCreate]
+
+end parfs
+
+/-- The sequential writers and `write_csv_par` create or TRUNCATE the target: afterwards it holds exactly
+    the new bytes whatever it held before (e.g. a longer older file), and nothing else changes. -/
+theorem writers_truncate (fs : Fs) (path : String) (bytes : List Char) :
+    writeFileFs fs path bytes path = some bytes ∧ parWriteCsvFs fs path bytes path = some bytes ∧
+    (∀ q, q ≠ path → writeFileFs fs path bytes q = fs q ∧ parWriteCsvFs fs path bytes q = fs q) := by
+  refine ⟨by simp [writeFileFs, fsCreate], by simp [parWriteCsvFs, fsCreate], fun q hq => ?_⟩
+  simp [writeFileFs, parWriteCsvFs, fsCreate, hq]
+
+/-- Missing parent directory: each parallel writer behaves like its sequential counterpart (both create the
+    parents, so both succeed) — for the free functions and the `PCollection` methods. -/
+theorem par_writers_create_parents_like_seq :
+    createsParents "write_jsonl_par" = createsParents "write_jsonl_vec" ∧
+    createsParents "write_csv_par" = createsParents "write_csv_vec" ∧
+    createsParents "pc_write_jsonl_par" = createsParents "pc_write_jsonl" ∧
+    createsParents "pc_write_csv_par" = createsParents "pc_write_csv" ∧
+    (∀ {β : Type} (r : β), writeAt (createsParents "write_csv_par") false r = some r) := by
+  refine ⟨by decide, by decide, by decide, by decide, fun r => ?_⟩
+  have : createsParents "write_csv_par" = true := by decide
+  simp [writeAt, this]
+
+/-- Pinned commit: `write_csv_par` failed below a missing directory where `write_csv_vec` (and its own
+    `PCollection` method, which ends in `write_csv_vec`) succeeded. (Negation witness.) -/
+theorem legacy_csv_par_fails_below_missing_parent :
+    writeAt (Legacy.createsParents "write_csv_par") false () = none ∧
+    writeAt (Legacy.createsParents "write_csv_vec") false () = some () ∧
+    writeAt (Legacy.createsParents "pc_write_csv_par") false () = some () := by decide
+
+/-! ## 8. `PCollection` writer methods -/
+
+/-- `PCollection::write_csv_par(path, shards, hdr)` = `collect_par(threads := shards, partitions := planner
+    suggestion)` + `write_csv_vec`: for every thread count, every machine (`hw`) and every data size the rows
+    written are those `write_csv_vec` writes. (`shards` never reaches the data path.) -/
+theorem pcWriteCsvPar_eq_seq {Line Rec : Type} (hdr : Bool) (header : Line) (ser : Rec → Line)
+    (data : List Rec) (threads : Option Nat) (hw : Nat) :
+    pcWriteCsvPar hdr header ser data threads hw = csvWrite hdr header ser data := by
+  unfold pcWriteCsvPar
+  rw [collectParVec_eq]
+
+/-- `PCollection::write_jsonl_par` = `collect_seq` + the free function: the input records in order. -/
+theorem pcWriteJsonlPar_concat {α : Type} (data : List α) (shards : Option Nat) (auto : Nat) :
+    pcWriteJsonlPar data shards auto = some data :=
+  parWriteJsonl_concat data shards auto
+
+/-! ## 9. The integer line codec the driver runs satisfies `LineCodec` -/
+
+/-- `serde_json` on `i64` (decimal digits, `-` for negatives / whitespace-tolerant canonical-integer parser
+    with range check) satisfies all four `LineCodec` hypotheses — so `roundtrip_modulo_serialiser`,
+    `streamed_roundtrip` and `parwrite_roundtrip` hold unconditionally for the codec that the `JSONLRD` /
+    `WRJSONL` correspondence requests execute against the real bytes. -/
+theorem intCodec : LineCodec serI64 deI64 := by
+  have key : ∀ r : I64, ∃ (neg : Bool) (ds : List Char),
+      serI64 r = (if neg then '-' :: ds else ds) ∧ ds.all Char.isDigit = true ∧ ds ≠ [] ∧
+      deI64 (serI64 r) = some r := by
+    intro ⟨v, hv⟩
+    obtain ⟨h1, h2, h3, h4⟩ := serNat_spec v.natAbs
+    by_cases hneg : v < 0
+    · refine ⟨true, serNat v.natAbs, by simp [serI64, serInt, hneg], h1, h3, ?_⟩
+      have hval : (if true = true then - (Int.ofNat (parseDigits (serNat v.natAbs))) else
+          Int.ofNat (parseDigits (serNat v.natAbs))) = v := by
+        rw [h2]; simp only [if_true, Int.ofNat_eq_natCast]; omega
+      have := deInt_of_digits true (serNat v.natAbs) h1 h3 h4 (by intro _; rw [h2]; omega)
+        (by rw [hval]; exact hv)
+      rw [hval] at this
+      simp only [if_true] at this
+      simp only [deI64, serI64, serInt, if_pos hneg, this, dif_pos hv]
+    · refine ⟨false, serNat v.natAbs, by simp [serI64, serInt, hneg], h1, h3, ?_⟩
+      have hval : (if false = true then - (Int.ofNat (parseDigits (serNat v.natAbs))) else
+          Int.ofNat (parseDigits (serNat v.natAbs))) = v := by
+        rw [h2]; simp only [Bool.false_eq_true, if_false, Int.ofNat_eq_natCast]; omega
+      have := deInt_of_digits false (serNat v.natAbs) h1 h3 h4 (by intro h; cases h)
+        (by rw [hval]; exact hv)
+      rw [hval] at this
+      simp only [Bool.false_eq_true, if_false] at this
+      simp only [deI64, serI64, serInt, if_neg hneg, this, dif_pos hv]
+  constructor
+  · intro r; obtain ⟨_, _, _, _, _, h⟩ := key r; exact h
+  · intro r
+    obtain ⟨neg, ds, hs, hd, hne, _⟩ := key r
+    obtain ⟨z, hz, hzd⟩ := all_digits_getLast ds hd hne
+    have hmem : z ∈ serI64 r := by
+      rw [hs]
+      have : z ∈ ds := List.mem_of_getLast? hz
+      cases neg <;> simp [this]
+    unfold blankLine
+    rw [Bool.eq_false_iff]
+    intro hall
+    have := (List.all_eq_true.mp hall) z hmem
+    rw [(isDigit_facts z hzd).2.1] at this
+    cases this
+  · intro r
+    obtain ⟨neg, ds, hs, hd, _, _⟩ := key r
+    rw [hs]
+    intro hmem
+    have hin : '\n' ∈ ds := by
+      cases neg
+      · simpa using hmem
+      · simp only [if_true, List.mem_cons] at hmem
+        rcases hmem with h | h
+        · cases h
+        · exact h
+    exact (isDigit_facts _ ((List.all_eq_true.mp hd) _ hin)).2.2.1 rfl
+  · intro r
+    obtain ⟨neg, ds, hs, hd, hne, _⟩ := key r
+    obtain ⟨z, hz, hzd⟩ := all_digits_getLast ds hd hne
+    have hl : (serI64 r).getLast? = some z := by
+      rw [hs]
+      cases neg
+      · simpa using hz
+      · cases ds with
+        | nil => exact absurd rfl hne
+        | cons a m => simp only [if_true]; rw [List.getLast?_cons_cons]; exact hz
+    rw [hl]
+    intro h
+    simp only [Option.some.injEq] at h
+    exact (isDigit_facts z hzd).2.2.2.1 h
+
+/-- the three JSONL round-trip statements, instantiated: no hypothesis left for `i64` records -/
+theorem i64_jsonl_roundtrip (rs : List I64) (shards : Option Nat) (auto per : Nat) :
+    readAll blankLine deI64 (splitLines (writeJsonl serI64 rs)) = some rs ∧
+    parWriteJsonlBytes serI64 rs shards auto = some (writeJsonl serI64 rs) ∧
+    runSeq blankLine deI64 (splitLines (writeJsonl serI64 rs)) = .ok rs ∧
+    runPar blankLine deI64 (splitLines (writeJsonl serI64 rs)) per = .ok rs :=
+  ⟨roundtrip_modulo_serialiser serI64 deI64 intCodec rs, parWriteJsonlBytes_eq_seq serI64 rs shards auto,
+    (streamed_roundtrip serI64 deI64 intCodec rs per).1, (streamed_roundtrip serI64 deI64 intCodec rs per).2⟩
+
+
+/-- `globRead_roundtrip` instantiated, no hypothesis left: JSONL files of `i64` records written by
+    `write_jsonl_vec` (byte level) and read through a glob come back as the concatenation of the files in
+    sorted path order. -/
+theorem glob_i64_jsonl_roundtrip (files : List (PathC × List I64)) :
+    globRead (readAll blankLine deI64) (files.map fun f => (f.1, splitLines (writeJsonl serI64 f.2))) =
+      some ((sortPaths files).flatMap (·.2)) :=
+  globRead_roundtrip (readAll blankLine deI64) (fun rs => splitLines (writeJsonl serI64 rs))
+    (roundtrip_modulo_serialiser serI64 deI64 intCodec) files
+
+/-- … and for CSV files (record level, same header flag for writer and reader, row codec round-trips). -/
+theorem glob_csv_roundtrip {Line Rec : Type} (hdr : Bool) (header : Line) (ser : Rec → Line)
+    (de : Line → Option Rec) (hde : ∀ r, de (ser r) = some r) (files : List (PathC × List Rec)) :
+    globRead (csvRead hdr de) (files.map fun f => (f.1, csvWrite hdr header ser f.2)) =
+      some ((sortPaths files).flatMap (·.2)) :=
+  globRead_roundtrip (csvRead hdr de) (csvWrite hdr header ser) (csv_roundtrip hdr header ser de hde) files
+
+/-! ## 10. The path helpers: glob branch or literal file -/
+
+/-- A path without `* ? [` is read as ONE file by `read_jsonl` / `read_csv` — exactly `read_*_vec`. -/
+theorem readHelper_literal {Line Rec : Type} (readFile : List Line → Option (List Rec))
+    (path : List Char) (h : isPattern path = false) (ls : List Line) (matched : List (PathC × List Line)) :
+    readHelper readFile path (some ls) matched = readFile ls := by
+  simp [readHelper, h]
+
+/-- A pattern that matches at least one file yields the glob round trip; one that matches none is an error
+    (`bail!("no files found …")`), never an empty collection. -/
+theorem readHelper_pattern {Line Rec : Type} (readFile : List Line → Option (List Rec))
+    (write : List Rec → List Line) (hrt : ∀ rs, readFile (write rs) = some rs)
+    (path : List Char) (h : isPattern path = true) (lit : Option (List Line))
+    (files : List (PathC × List Rec)) :
+    readHelper readFile path lit (files.map fun f => (f.1, write f.2)) =
+      if files = [] then none else some ((sortPaths files).flatMap (·.2)) := by
+  unfold readHelper
+  rw [if_pos h]
+  cases files with
+  | nil => simp
+  | cons f fs =>
+    rw [globRead_roundtrip readFile write hrt]
+    simp
+
+/-- witness of the dispatch rule: a file the writers create under the name `out[1].jsonl` is not read back
+    under that name (the name is a pattern; it matches `out1.jsonl`) -/
+example : isPattern "out[1].jsonl".toList = true ∧ isPattern "dir/out-1.jsonl".toList = false := by decide
 
 end IB.Io
